@@ -234,7 +234,7 @@ func TestC07_JSON(t *testing.T) {
 				if strings.Contains(s, "${") || strings.Contains(s, "%{") {
 					hasSeq = true
 				}
-				e, d := hclsyntax.ParseTemplate([]byte(cty.StringVal(s).AsString()), "", hcl.InitialPos)
+				e, d := hclsyntax.ParseTemplate([]byte(s), "", hcl.Pos{Line: 1, Column: 2, Byte: 1})
 				if d.HasErrors() {
 					return
 				}
